@@ -207,6 +207,12 @@ func (w *World) normShape(fn *ssa.Function, depth int) *normShape {
 		sc := sorts[0]
 		sh := &normShape{DirParam: -1, SliceParam: -1}
 		arg := sc.Call.Args[0]
+		// sort.Sort(sort.Reverse(T(p))): the opposite direction of T
+		reversed := false
+		if rc, ok := arg.(*ssa.Call); ok && staticCallee(rc) != nil && funcFullName(staticCallee(rc)) == "sort.Reverse" && len(rc.Call.Args) == 1 {
+			arg = rc.Call.Args[0]
+			reversed = true
+		}
 		if mi, ok := arg.(*ssa.MakeInterface); ok {
 			st, isNamed := mi.X.Type().(*types.Named)
 			k := paramIdx(mi.X)
@@ -218,6 +224,9 @@ func (w *World) normShape(fn *ssa.Function, depth int) *normShape {
 				sh.Err = "sort type " + st.Obj().Name() + ": " + derr
 				normShapeCache[fn] = sh
 				return sh
+			}
+			if reversed {
+				dir = -dir
 			}
 			sh.Dir, sh.SortTyp, sh.SliceParam = dir, st, k
 		} else if k := paramIdx(arg); k >= 0 {
